@@ -105,7 +105,8 @@ class BerneseCrdParser(LineParser):
                     words = [w.strip() for w in line.replace("LOCAL GEODETIC DATUM:", "").replace("EPOCH:", "").split()]
         
                     self.meta["ref_frame"] = words[0]
-                    self.meta["ref_epoch"] =  f"{words[1]}T{words[2]}"
+                    # The writer puts "EPOCH: UNKNOWN" if no reference epoch is given
+                    self.meta["ref_epoch"] = f"{words[1]}T{words[2]}" if len(words) > 2 else None
                     break
 
     #
